@@ -21,7 +21,8 @@ type c09Job struct {
 }
 
 var c09Labels = []map[string]string{
-	{"job": "a", "inst": "1"}, {"job": "a", "inst": "2"}, {"job": "b", "inst": "1"}, {"job": "b", "inst": "2"},
+	// the second value of each label extends the first, so that a pattern alternative can match a proper prefix or suffix
+	{"job": "a", "inst": "1"}, {"job": "a", "inst": "12"}, {"job": "ab", "inst": "1"}, {"job": "ab", "inst": "12"},
 }
 
 const c09Steps = 3
@@ -60,7 +61,7 @@ func (m c09Matcher) match(labels map[string]string) bool {
 }
 
 func c09Matchers() [][]c09Matcher {
-	vals := map[string][]string{"job": {"a", "b", "a|b", ".*", ".+", ""}, "inst": {"1", "2", "1|2", ".*", ".+", ""}}
+	vals := map[string][]string{"job": {"a", "ab", "a|b", ".*", ".+", ""}, "inst": {"1", "12", "1|2", ".*", ".+", ""}}
 	ops := []string{"=", "!=", "=~", "!~"}
 	var single [][]c09Matcher
 	byLabel := map[string][]c09Matcher{}
